@@ -60,7 +60,7 @@ def run(ctx):
     write_cfg(d / "AddrConvMC_run.cfg", "Spec", {"ToyNets": "<- FewNets" if q else "<- AllNets"},
               invariants=["ContiguousMembership", "CanonicalIsCIDR", "NoPrefixForHoles", "AndOK"])
     ctx.tlc(d, "AddrConvMC", "AddrConvMC_run.cfg", label="toy-membership-mc", timeout=1200)
-    write_cfg(d / "PreferSortMC_run.cfg", "Spec", {"MaxLen": 5 if q else 6, "BruteLen": 4},
+    write_cfg(d / "PreferSortMC_run.cfg", "Spec", {"MaxLen": 4 if q else 5, "BruteLen": 4},
               invariants=["SortedOK", "Unique", "SwapInvariant", "OrderedIsFixpoint"])
     ctx.tlc(d, "PreferSortMC", "PreferSortMC_run.cfg", label="sort-order-mc", timeout=1200)
 
